@@ -73,6 +73,12 @@ cJSON *handle_authentication(struct peer *p, const cJSON *request)
 		return create_error_response_from_request(p, request, INVALID_PARAMS, "invalid credentials", user->valuestring);
 	}
 
+	/* a request that is answered with an error must leave the peer as it was */
+	char *user_name = duplicate_string(user->valuestring);
+	if (user_name == NULL) {
+		return create_error_response_from_request(p, request, INTERNAL_ERROR, "reason", "not enough memory to allocate user name");
+	}
+
 	const cJSON *fetch_groups = cJSON_GetObjectItem(auth, "fetchGroups");
 	p->fetch_groups = get_groups(fetch_groups);
 	const cJSON *set_groups = cJSON_GetObjectItem(auth, "setGroups");
@@ -83,10 +89,7 @@ cJSON *handle_authentication(struct peer *p, const cJSON *request)
 	if (p->user_name != NULL) {
 		cjet_free(p->user_name);
 	}
-	p->user_name = duplicate_string(user->valuestring);
-	if (p->user_name == NULL) {
-		return create_error_response_from_request(p, request, INTERNAL_ERROR, "reason", "not enough memory to allocate user name");
-	}
+	p->user_name = user_name;
 
 	return create_success_response_from_request(p, request);
 }
